@@ -4,12 +4,13 @@
 
    A handle id stands for "the file object held by one program variable" (ids are global
    over the six translated functions; a callee's returned variable and the caller's target
-   variable share one id).  A state is a pair
-       (owned, touched)
-   owned   : handles opened by lasio during this call that are open now (a multiset:
-             opening into a variable that still holds an open file loses the old file for
-             good — `Close` removes ONE occurrence);
-   touched : caller-supplied objects on which lasio called close().
+   variable share one id).  A state is a triple
+       (owned, touched, lost)
+   owned   : variables that hold a file opened by lasio during this call that is open now;
+   touched : caller-supplied objects on which lasio called close();
+   lost    : number of open files no variable refers to any more (a variable holding an
+             open file was overwritten, by another open or by an assignment): they can
+             never be closed.
 
    Every MayRaise / Open / Close may complete or raise, nondeterministically: an injected
    OSError at the k-th low-level operation (for every k) and every input-induced exception
@@ -24,6 +25,7 @@ Inductive stmt :=
 | Close (h:nat)                 (* x.close() where x can only hold a file lasio opened itself
                                    (with-exit, or guarded by the opened-flag) *)
 | CloseArg (h:nat)              (* x.close() where x may hold an object supplied by the caller *)
+| Rebind (h:nat)                (* x = <something that is not a file lasio opens> *)
 | Seq (a b:stmt) | If (a b:stmt) | Loop (b:stmt)
 | TryFinally (b f:stmt) | TryExcept (b h:stmt)
 | Call (b:stmt).                (* inlined call of a translated helper: its `return` ends the helper only *)
@@ -31,13 +33,21 @@ Inductive stmt :=
 (* with open(..) as x: body *)
 Definition With (h:nat) (b:stmt) : stmt := Seq (Open h) (TryFinally b (Close h)).
 
+(* a block of statements *)
+Fixpoint seqs (l:list stmt) : stmt :=
+  match l with [] => Skip | [a] => a | a :: t => Seq a (seqs t) end.
+
 Inductive outcome := ONorm | ORaise | ORet | OBrk | OCnt.
-Definition st := (list nat * list nat)%type.
-Definition owned (s:st) : list nat := fst s.
-Definition touched (s:st) : list nat := snd s.
+Definition st := (list nat * list nat * nat)%type.
+Definition owned (s:st) : list nat := fst (fst s).
+Definition touched (s:st) : list nat := snd (fst s).
+Definition lost (s:st) : nat := snd s.
 
 Fixpoint rm1 (h:nat) (s:list nat) : list nat :=
   match s with [] => [] | x :: t => if x =? h then t else x :: rm1 h t end.
+
+Definition mem (h:nat) (s:list nat) : bool := existsb (Nat.eqb h) s.
+Definition b2n (b:bool) : nat := if b then 1 else 0.
 
 Inductive exec : stmt -> st -> outcome -> st -> Prop :=
 | XSkip s : exec Skip s ONorm s
@@ -46,12 +56,13 @@ Inductive exec : stmt -> st -> outcome -> st -> Prop :=
 | XRet s : exec Return s ORet s
 | XBrk s : exec Break s OBrk s
 | XCnt s : exec Continue s OCnt s
-| XOpenN h ow tc : exec (Open h) (ow, tc) ONorm (h :: ow, tc)
+| XOpenN h ow tc n : exec (Open h) (ow, tc, n) ONorm (h :: rm1 h ow, tc, n + b2n (mem h ow))
 | XOpenR h s : exec (Open h) s ORaise s
-| XCloseN h ow tc : exec (Close h) (ow, tc) ONorm (rm1 h ow, tc)
-| XCloseR h ow tc : exec (Close h) (ow, tc) ORaise (rm1 h ow, tc)
-| XCloseArgN h ow tc : exec (CloseArg h) (ow, tc) ONorm (rm1 h ow, h :: tc)
-| XCloseArgR h ow tc : exec (CloseArg h) (ow, tc) ORaise (rm1 h ow, h :: tc)
+| XCloseN h ow tc n : exec (Close h) (ow, tc, n) ONorm (rm1 h ow, tc, n)
+| XCloseR h ow tc n : exec (Close h) (ow, tc, n) ORaise (rm1 h ow, tc, n)
+| XCloseArgN h ow tc n : exec (CloseArg h) (ow, tc, n) ONorm (rm1 h ow, h :: tc, n)
+| XCloseArgR h ow tc n : exec (CloseArg h) (ow, tc, n) ORaise (rm1 h ow, h :: tc, n)
+| XRebind h ow tc n : exec (Rebind h) (ow, tc, n) ONorm (rm1 h ow, tc, n + b2n (mem h ow))
 | XSeqN a b s s1 o s2 : exec a s ONorm s1 -> exec b s1 o s2 -> exec (Seq a b) s o s2
 | XSeqX a b s o s1 : exec a s o s1 -> o <> ONorm -> exec (Seq a b) s o s1
 | XIfL a b s o s1 : exec a s o s1 -> exec (If a b) s o s1
@@ -76,9 +87,9 @@ Record res := { rN : option (list nat); rR : option (list nat); rT : option (lis
 Definition get (r:res) (o:outcome) :=
   match o with ONorm => rN r | ORaise => rR r | ORet => rT r | OBrk => rB r | OCnt => rC r end.
 Definition rm (h:nat) (s:list nat) : list nat := filter (fun x => negb (x =? h)) s.
-Definition mem (h:nat) (s:list nat) : bool := existsb (Nat.eqb h) s.
+Definition union (x y:list nat) : list nat := x ++ filter (fun e => negb (mem e x)) y.
 Definition oj (a b:option (list nat)) : option (list nat) :=
-  match a, b with None, x => x | x, None => x | Some x, Some y => Some (x ++ y) end.
+  match a, b with None, x => x | x, None => x | Some x, Some y => Some (union x y) end.
 Definition rj (a b:res) : res :=
   {| rN := oj (rN a) (rN b); rR := oj (rR a) (rR b); rT := oj (rT a) (rT b);
      rB := oj (rB a) (rB b); rC := oj (rC a) (rC b) |}.
@@ -103,6 +114,10 @@ Fixpoint an (s:stmt) (A:list nat) : option res :=
       (* re-opening into a variable that may still hold an open file is rejected *)
       if mem h A then None
       else Some {| rN := Some (h :: A); rR := Some A; rT := None; rB := None; rC := None |}
+  | Rebind h =>
+      (* overwriting a variable that may still hold an open file is rejected *)
+      if mem h A then None
+      else Some {| rN := Some A; rR := None; rT := None; rB := None; rC := None |}
   | Close h | CloseArg h =>
       Some {| rN := Some (rm h A); rR := Some (rm h A); rT := None; rB := None; rC := None |}
   | Seq a b =>
